@@ -252,6 +252,22 @@ def include_chains(rng, quick):
                         pass
                     trace = ";".join("%s:%d" % (names[i], inc_line[i]) for i in range(j - 1, -1, -1))
                     out.append((files, ("trace", names[j], fl, trace)))
+                    # a directive that cannot stand where it is, written directly BEFORE the INCLUDE of file f_m (m < k): it is
+                    # a fault of f_m, reached through the includes that lead to f_m - not through f_m's own INCLUDE
+                    if not after and variant == 0:
+                        for m in range(0, k):
+                            files2 = []
+                            for (nm, content) in files:
+                                if nm == names[m]:
+                                    ls = content.decode().split("\n")
+                                    at = inc_line[m] - 1
+                                    ls[at:at] = ["Version 1"]
+                                    files2.append((nm, "\n".join(ls).encode()))
+                                    wl = at + 1
+                                else:
+                                    files2.append((nm, content))
+                            tr2 = ";".join("%s:%d" % (names[i], inc_line[i] + (1 if i == m else 0)) for i in range(m - 1, -1, -1))
+                            out.append((files2, ("trace2", names[m], wl, tr2)))
     return out
 
 
@@ -313,7 +329,7 @@ def project_stage(res, tier, seed, rp):
         if isinstance(fam, tuple) and fam[0] == "span" and st != "err":
             bad.append(("a Path property typed by a structured or undefined user type is not rejected (%s)" % st, pj, o))
             continue
-        if isinstance(fam, tuple) and fam[0] == "trace" and st != "err":
+        if isinstance(fam, tuple) and fam[0] in ("trace", "trace2") and st != "err":
             bad.append(("a duplicate TYPE in an included file is not rejected (%s)" % st, pj, o))
             continue
         if st != "err" or "file" not in d:
@@ -339,12 +355,12 @@ def project_stage(res, tier, seed, rp):
         if line != want and not (idx == 0 and line == 0):
             bad.append(("line %d does not agree with index %d of %s (line %d)" % (line, idx, fname, want), pj, o))
             continue
-        if isinstance(fam, tuple) and fam[0] == "trace":
+        if isinstance(fam, tuple) and fam[0] in ("trace", "trace2"):
             _, wfile, wline, wtrace = fam
             got = C.unhx(d.get("trace", "-")).decode("latin1") if d.get("trace", "-") != "-" else ""
             if fname != wfile or line != wline or got != wtrace:
-                bad.append(("the fault is the second TYPE @dup in %s line %d, reached through the includes %r; the diagnostic says %s line %d with the trace %r"
-                            % (wfile, wline, wtrace, fname, line, got), pj, o))
+                bad.append(("the fault is %s in %s line %d, reached through the includes %r; the diagnostic says %s line %d with the trace %r"
+                            % ("the second TYPE @dup" if fam[0] == "trace" else "the misplaced directive before the INCLUDE", wfile, wline, wtrace, fname, line, got), pj, o))
             continue
         if isinstance(fam, tuple) and fam[0] == "span":
             _, wfile, a0, a1 = fam
